@@ -179,6 +179,14 @@ OPS = [
     ('bem_card', lambda em, e: em.expand('section.card_big>p.-x', e['B'])),
     ('bem_context', lambda em, e: em.expand('.-title', {'options': {'bem.enabled': True},
                                                          'context': {'name': 'div', 'attributes': {'class': 'card_big'}}})),
+    # a call that ends inside nested braces of a text (one that returns, one that raises), then ordinary text
+    ('m_nested_open', lambda em, e: em.expand('span{{foo', e['A'])),
+    ('m_nested_open_fail', lambda em, e: em.expand('p{a{${', e['A'])),
+    ('m_text_sibling', lambda em, e: em.expand('p{x}+q', e['A'])),
+    # markup through the shared cache with and without comment templates of its own
+    ('m_cache_comment_default', lambda em, e: em.expand('ul>li.item#foo', {'cache': e['C1'], 'options': {'comment.enabled': True}})),
+    ('m_cache_comment_custom', lambda em, e: em.expand('ul>li.item#foo', {'cache': e['C1'], 'options': {
+        'comment.enabled': True, 'comment.before': '<!-- [#ID] -->\n', 'comment.after': ' <!-- end of [.CLASS] -->'}})),
     ('seq_edit_call_config', seq_edit_call_config),
     ('after_edit_call_config', lambda em, e: em.expand('br+zq', {'options': {'output.selfClosingStyle': 'xhtml', 'output.format': False}, 'snippets': {'zq': 'span.q'}})),
     ('seq_edit_global_config', seq_edit_global_config),
